@@ -70,7 +70,12 @@ class Rev(ReverseProxyBasePlugin):
             r.append((r'/ra/', [_routes['A']] + ([_routes['A2']] if _routes['A2'] else [])))
         if _routes['B']:
             r.append((r'/rb/', [_routes['B']]))
+        r.append(r'/rl/')       # dynamic route answered by the plugin itself (a literal response)
         return r
+
+    def handle_route(self, request: HttpParser, pattern: Any) -> Any:
+        body = b'OL|' + _rid(request) + b'|'
+        return memoryview(b'HTTP/1.1 200 OK\r\nContent-Length: %d\r\nX-Origin: OL\r\n\r\n' % len(body) + body)
 
 
 def flags_for(role: str) -> Any:
@@ -89,10 +94,10 @@ def build_request(role: str, spec: Dict[str, Any], hostports: Dict[str, bytes]) 
         target = b'http://%s/f/%s' % (hp, rid)
         host = hp
     elif role == 'web':
-        target = (b'/wa/' if tgt == 'A' else b'/wb/') + rid
+        target = {'A': b'/wa/', 'B': b'/wb/', 'N': b'/no-such-route/'}[tgt] + rid
         host = b'web.test'
     else:
-        target = (b'/ra/' if tgt == 'A' else b'/rb/') + rid
+        target = {'A': b'/ra/', 'B': b'/rb/', 'L': b'/rl/'}[tgt] + rid
         host = b'rev.test'
     body = spec.get('body')
     version = b'HTTP/1.0' if spec.get('last') == 'http10' else b'HTTP/1.1'
@@ -147,9 +152,14 @@ def run_case(case: Dict[str, Any]) -> Dict[str, Any]:
         want = [expected_tag(role, s) for s in specs]
 
         def responses() -> Tuple[List[Dict[str, Any]], Optional[str], bytes]:
-            return h11util.parse_responses(bytes(client.rx), methods + [b'GET'], eof=client.eof)
+            return h11util.parse_responses(bytes(client.rx), methods + [b'GET'], eof=client.eof, max_msgs=len(methods) + 5)
 
         def ncomplete() -> int:
+            if len(raws) > 50:
+                # deep pipelines: counting status lines is enough to pace the run (the full parse happens once, at the end)
+                n200 = bytes(client.rx).count(b'HTTP/1.1 200 OK\r\n')
+                if n200 < len(raws):
+                    return n200
             ms, _, _ = responses()
             return sum(1 for m in ms if m['complete'] and not m.get('interim'))
 
@@ -182,7 +192,24 @@ def run_case(case: Dict[str, Any]) -> Dict[str, Any]:
                     return True
             return rig.until(p, [client], idle_timeout=case.get('grace', 0.5))
 
-        if packing == 'keepalive':
+        if packing == 'overlap':
+            # request k+1 is half on the wire when response k arrives: its first part is sent right behind request k,
+            # the remainder only after response k has been read completely
+            carry = b''
+            for k, raw in enumerate(raws):
+                client.send(carry + raw if not carry else raw[len(carry_sent):])
+                carry = b''
+                carry_sent = b''
+                if k + 1 < len(raws):
+                    cut = rng.randint(1, max(1, len(raws[k + 1]) - 1))
+                    carry_sent = raws[k + 1][:cut]
+                    world(rng.randint(0, 2))
+                    client.send(carry_sent)
+                    carry = carry_sent
+                world(rng.randint(0, 3))
+                if not settle_until(lambda: ncomplete() >= k + 1 or client.ended):
+                    break
+        elif packing == 'keepalive':
             for k, raw in enumerate(raws):
                 pieces = conv.cut_bytes(rng, raw, case.get('ncuts', 0))
                 for pc in pieces:
@@ -206,6 +233,8 @@ def run_case(case: Dict[str, Any]) -> Dict[str, Any]:
                     g = rng.randint(2, 3)
                     pieces.append(b''.join(raws[k:k + g]))
                     k += g
+            elif packing == 'packed-all':
+                pieces = [stream]
             elif packing == 'bytes':
                 pieces = [stream[j:j + 1] for j in range(len(stream))]
             else:
@@ -237,6 +266,15 @@ def run_case(case: Dict[str, Any]) -> Dict[str, Any]:
             viol.append({'key': feat + '|client-stream-unparseable', 'detail': dict(detail_base, err=err, head=bytes(client.rx[:200]))})
         else:
             for k, w in enumerate(want):
+                if specs[k]['to'] == 'N':
+                    # a follow-up naming no route: the 404 a first request would get, then the connection is closed
+                    if k >= len(finals) or finals[k]['code'] != 404 or not finals[k]['complete']:
+                        viol.append({'key': feat + '|unrouted-follow-up-not-answered-with-404', 'detail': dict(detail_base, index=k)})
+                    elif not client.ended:
+                        viol.append({'key': feat + '|connection-open-after-404-with-connection-close', 'detail': dict(detail_base, index=k)})
+                    else:
+                        obs['unrouted_followups_checked'] = 1
+                    break
                 if k >= len(got):
                     kind = 'missing-response'
                     # which structural feature explains it?  the k-th request shared a segment with its predecessor
@@ -267,7 +305,7 @@ def run_case(case: Dict[str, Any]) -> Dict[str, Any]:
                 if any(c.bad for c in ao.conns):
                     viol.append({'key': feat + '|origin-stream-unparseable', 'detail': {'origin': nm, 'why': [c.bad for c in ao.conns]}})
                 seen = [r['hd'].get(b'x-req-id', b'?').decode('latin-1') for r in ao.all_requests()]
-                mine = [s['rid'] for s in specs if s['to'] == nm]
+                mine = [s_['rid'] for s_ in specs if s_['to'] == nm]
                 foreign = [x for x in seen if x not in mine]
                 if foreign and not any('wrong-origin' in v['key'] for v in viol):
                     viol.append({'key': feat + '|origin-saw-request-addressed-elsewhere', 'detail': dict(detail_base, origin=nm, seen=seen)})
@@ -276,7 +314,7 @@ def run_case(case: Dict[str, Any]) -> Dict[str, Any]:
                 obs['origin_requests'] = obs.get('origin_requests', 0) + len(seen)
         # still usable: nobody closed, so one more request must be served (unless the client itself asked for
         # the connection to end with its last request: then only the responses are owed)
-        if specs[-1].get('last'):
+        if specs[-1].get('last') or specs[-1]['to'] == 'N':
             obs['last_request_asks_close'] = 1
         elif not viol:
             if client.ended:
@@ -317,7 +355,7 @@ def run_case(case: Dict[str, Any]) -> Dict[str, Any]:
 def cases(tier: str, seed: int):
     rng = random.Random('c04cases:%d' % seed)
     n = 2400 if tier == 'quick' else 30000
-    packings = ['keepalive', 'keepalive', 'per-request', 'packed', 'random', 'bytes']
+    packings = ['keepalive', 'keepalive', 'per-request', 'packed', 'random', 'bytes', 'overlap']
     for i in range(n):
         role = ['forward', 'web', 'reverse'][i % 3]
         packing = packings[(i // 3) % len(packings)]
@@ -340,16 +378,30 @@ def cases(tier: str, seed: int):
                         left -= s
                     spec['sizes'] = sizes
             reqs.append(spec)
+        if role == 'reverse' and packing in ('keepalive', 'overlap') and rng.random() < 0.5:
+            for r_ in reqs[1:]:
+                if rng.random() < 0.5:
+                    r_['to'] = 'L'      # answered by the plugin itself, must not reach (or be answered by) any upstream
         if rng.random() < 0.25:
             reqs[-1]['last'] = rng.choice(['close', 'close', 'http10'])
+        elif role == 'web' and len(reqs) > 1 and rng.random() < 0.3:
+            reqs[-1]['to'] = 'N'
         yield {'seed': seed, 'i': i, 'role': role, 'packing': packing, 'requests': reqs,
                'ncuts': rng.choice([0, 0, 1, 3, 8]), 'answer_p': rng.choice([1.0, 0.7, 0.3]),
                'transport': rng.choice(['unix', 'tcp']), 'mode': rng.choice(['local', 'local', 'remote'])}
 
 
+    # deep pipelines: very many tiny requests inside one read
+    for k in range(6 if tier == 'quick' else 60):
+        nreq = rng.choice([300, 1200, 2500])
+        role = ['forward', 'web', 'forward'][k % 3]
+        yield {'seed': seed, 'i': n + k, 'role': role, 'packing': 'packed-all', 'requests': [{'rid': 'd%d' % j, 'to': 'A', 'method': 'GET'} for j in range(nreq)],
+               'ncuts': 0, 'answer_p': 1.0, 'transport': 'tcp', 'mode': 'local', 'grace': 2.0}
+
+
 def floors(tier: str) -> Dict[str, int]:
     return {'histories>=3': 200, 'packing:packed': 150, 'role:forward': 50, 'role:web': 50, 'role:reverse': 50,
-            'responses_matched': 300, 'multi_target': 30, 'last_request_asks_close': 100, 'with_body': 100, 'distinct:schedules': 200}
+            'responses_matched': 300, 'multi_target': 30, 'last_request_asks_close': 100, 'packing:overlap': 50, 'unrouted_followups_checked': 10, 'with_body': 100, 'distinct:schedules': 200}
 
 
 if __name__ == '__main__':
